@@ -54,7 +54,7 @@ CHECKS = {
          "Bounded as C13. Comments are plain single-line texts. Descriptions produced by the derive macros are round-tripped in C16's corpus.", "4 C14"),
  "C19": ("sockets", "stateless model checking of real socketpair traffic: DFS over message sequences x driver schedules (which end is polled next, when a pending send future is dropped) with a deviation budget, every schedule one real single-threaded execution per runtime (tokio, smol)",
          "Real AF_UNIX socketpairs with the smallest kernel buffers, real zlink_tokio / zlink_smol connections, futures polled by hand; received sequence must be the sent one (whole frames, in order, each at most once, every completed send delivered) for one- and two-directional traffic, with sends abandoned at every scheduled point; listeners bound vs. from an inherited descriptor with 1..8 clients, identifiers distinct.",
-         "The explorer owns the schedule, not how many bytes the kernel accepts per write (observed, assumed to be a function of the operation sequence). Identifier distinctness is checked sequentially only (a fetch_add turned into load+store would not be caught). Bounded: <=3 messages from {1 B, 300 B, 6 KB, 70 KB} (+1 MiB thorough), 6..16 scheduled steps, <=3 deviations, incl. a phase where several sends in a row are abandoned (a retry dropped before it made progress).", "4 C19"),
+         "The explorer owns the schedule, not how many bytes the kernel accepts per write (observed, assumed to be a function of the operation sequence). Identifier distinctness is checked sequentially in the listener cases and, under threads, by loom (every interleaving of 3..4 threads creating 1..2 connections each). Bounded: <=3 messages from {1 B, 300 B, 6 KB, 70 KB} (+1 MiB thorough), 6..16 scheduled steps, <=3 deviations, incl. a phase where several sends in a row are abandoned (a retry dropped before it made progress).", "4 C19"),
  "C20": ("sockets", "exhaustive enumeration (DFS) of operation sequences over {set, subscribe, poll(i), clone, drop} against zlink_tokio::notified and zlink_smol::notified, hand-polled on one thread, logs compared with the latest-value rule and with each other",
          "Every sequence of <=8/10 operations with <=3 subscribers and <=3 state handles; per subscriber: items are values set after it subscribed, in order, each once, marked continuing; a drained subscriber has seen the latest value; a pending subscriber is woken by the next set; no end of stream while a state handle exists; tokio and smol observation logs equal; the 4 one-shot scenarios per crate.",
          "Trusted: the broadcast/oneshot channel libraries are linearizable, so cross-thread use reduces to these sequences.", "4 C20"),
@@ -95,8 +95,8 @@ def main():
         "version": 1,
         "setup_cmd": "./vcheck setup",
         "hooks": {
-            "guard": "--cfg zlink_verif (plus --cfg zlink_verif_small_buf for the lowered buffer limit)",
-            "enable": "RUSTFLAGS='--cfg zlink_verif' set by ./vcheck for every harness build (CARGO_TARGET_DIR=/verif/.build/main); a second build with '--cfg zlink_verif --cfg zlink_verif_small_buf' in /verif/.build/smallbuf",
+            "guard": "--cfg zlink_verif (plus --cfg zlink_verif_small_buf for the lowered buffer limit, plus --cfg zlink_verif_loom for the loom build of the connection-id counter)",
+            "enable": "RUSTFLAGS='--cfg zlink_verif' set by ./vcheck for every harness build (CARGO_TARGET_DIR=/verif/.build/main); a second build with '--cfg zlink_verif --cfg zlink_verif_small_buf' in /verif/.build/smallbuf; a third with '--cfg zlink_verif --cfg zlink_verif_loom' in /verif/.build/loom (package loomids only)",
             "baseline_off_cmd": "cd /repo && cargo nextest run --workspace --no-fail-fast --test-threads 8 --offline",
             "source_commits": hooks.get("source_commits", []),
             "add_only": True,
@@ -104,6 +104,7 @@ def main():
         "engines": [
             {"name": "xplore", "path": "/verif/mc/xplore", "serves_properties": sorted(CHECKS), "kind_free_text": "stateless explorer: deviation-bounded DFS by re-execution of the real code under a harness that owns every environment choice; parallel indexed sweeps for plain product spaces; replay files; evidence writer"},
             {"name": "simnet", "path": "/verif/mc/simnet", "serves_properties": sorted(CHECKS), "kind_free_text": "scripted Socket/Listener/executor whose read sizes, pending polls, arrivals, faults are explorer choices"},
+            {"name": "loom", "path": "/verif/mc/loomids", "serves_properties": ["C19"], "kind_free_text": "loom 0.7 (exhaustive exploration of thread interleavings at atomic operations): 3..4 threads calling Connection::new against zlink-core's id counter built as a loom atomic (hook cfg zlink_verif_loom)"},
         ],
         "checks": checks,
         "not_applicable": na,
